@@ -151,7 +151,17 @@ func poolOf(h gen.History) []uuid.UUID {
 	return pool
 }
 
-func applyToShard(s *drive.Shard, st gen.Step) error {
+// errDeadlock wraps the verdict of drive.Watch: the call never returned.
+type errDeadlock struct{ error }
+
+func applyToShard(s *drive.Shard, st gen.Step) (err error) {
+	if werr := drive.Watch(fmt.Sprintf("the %s batch", st.Kind), func() { err = applyToShardRaw(s, st) }); werr != nil {
+		return errDeadlock{werr}
+	}
+	return err
+}
+
+func applyToShardRaw(s *drive.Shard, st gen.Step) error {
 	switch st.Kind {
 	case "insert":
 		return s.Insert(st.Points)
@@ -184,7 +194,14 @@ func execCase(c Case) (res vt.Result) {
 	if err != nil {
 		return vt.Result{Err: err}
 	}
-	defer r.Close()
+	// after a deadlock inside the shard its database cannot be closed any more (the stuck write
+	// transaction never ends): the instance is left behind
+	deadlocked := false
+	defer func() {
+		if !deadlocked {
+			r.Close()
+		}
+	}()
 	pool := poolOf(c.H)
 	suite := oracle.Suite(c.H.Schema)
 	full := oracle.ObserveOpts{RawBuckets: true, GraphLists: true}
@@ -248,6 +265,10 @@ func execCase(c Case) (res vt.Result) {
 			r.S.Proxy.Arm(plan)
 			callErr := applyToShard(r.S, st)
 			r.S.Proxy.Arm(nil)
+			if dl, ok := callErr.(errDeadlock); ok {
+				deadlocked = true
+				return plan.Fired(), fmt.Errorf("%s: %v", what, dl.error)
+			}
 			drive.Quiesce(baseGoroutines)
 			if err := drive.StrayVerdict(r.S); err != nil {
 				return plan.Fired(), err
@@ -348,6 +369,10 @@ func execCase(c Case) (res vt.Result) {
 			r.S.Proxy.Arm(plan)
 			callErr := applyToShard(r.S, st)
 			r.S.Proxy.Arm(nil)
+			if dl, ok := callErr.(errDeadlock); ok {
+				deadlocked = true
+				return fail(i, "%v", dl.error)
+			}
 			if err := drive.StrayVerdict(r.S); err != nil {
 				return fail(i, "%v", err)
 			}
